@@ -58,7 +58,7 @@ def check_case(ctx, g, ops, model=None):
     ctx.case({"game": before, "ops": [list(x) for x in ops]}, pruned_something)
     ctx.count("ops=" + "".join("P" if p else "U" for p, _ in ops))
     if model is not None:
-        from props.c03 import game_payload
+        from wire import game_payload
         model.add("solve_post", dict(game_payload(g), prune=True),
                   expect={"post": shared["transition_list"], "before": before["transition_list"]},
                   inp={"game": before}, suite="corr.alias")
